@@ -13,6 +13,9 @@ from vlib.vtargets import mark, Val, CustomError
 def decode(v):
     if isinstance(v, dict) and '__val__' in v:
         return Val(*v['__val__'])
+    if isinstance(v, dict) and '__onlyhere__' in v:
+        from vlib.vtargets import OnlyHere
+        return OnlyHere()
     if isinstance(v, list):
         return [decode(x) for x in v]
     return v
